@@ -2,7 +2,7 @@
 
 PROPS = {
     'C11': {
-        'lean': ['Netpol.Properties.C11'],
+        'lean': ['Netpol.Properties.C11', 'Netpol.Tie.Consts'],
         'families': [('alg', 3000, 150000)],
         'rule': 'operation sequences (1-30 ops over a pool of 4 connection sets; constructors, Union, Intersection, Subtract, Copy, '
                 'ReplaceNamedPort) from one PRNG state; after every op all pool members and all pairwise predicates are observed. '
@@ -20,7 +20,7 @@ PROPS = {
         'assumptions': ['World.Valid inputs: protocols TCP/UDP/SCTP, ports 1..65535, well-formed selectors, IPv4 CIDRs'],
     },
     'C02': {
-        'lean': ['Netpol.Properties.C02'],
+        'lean': ['Netpol.Properties.C02', 'Netpol.Tie.Consts'],
         'families': [('list', 1500, 60000), ('hist', 400, 20000), ('evalw', 100, 5000)],
         'accept_props': ['C02', 'C15', 'C03'],
         'shard_min': 50,
@@ -34,7 +34,7 @@ PROPS = {
         'assumptions': ['World.Valid inputs'],
     },
     'C15': {
-        'lean': ['Netpol.Properties.C15'],
+        'lean': ['Netpol.Properties.C15', 'Netpol.Tie.C15'],
         'families': [('hist', 600, 40000)],
         'shard_min': 100,
         'rule': 'histories of 5-60 InsertObject/DeleteObject/ClearResources/CheckIfAllowed operations over a vocabulary of 3 namespaces, 5 pods '
@@ -71,7 +71,7 @@ PROPS = {
         'assumptions': ['inputs without admin policies'],
     },
     'C16': {
-        'lean': ['Netpol.Properties.C16'],
+        'lean': ['Netpol.Properties.C16', 'Netpol.Tie.Consts'],
         'families': [('focus', 500, 20000)],
         'rule': 'worlds queried unfocused and with --focusworkload for every workload name, some namespace/name forms, absent names and ingress-controller; '
                 'P: the focused result equals the filter of the unfocused one; absent focus gives an empty result with a warning naming it',
@@ -110,7 +110,7 @@ PROPS = {
         'assumptions': ['service port numbers and names unique within a Service'],
     },
     'C12': {
-        'lean': ['Netpol.Properties.C12'],
+        'lean': ['Netpol.Properties.C12', 'Netpol.Tie.C12'],
         'families': [('mut', 1500, 60000)],
         'shard_min': 100,
         'rule': 'valid generated worlds (all kinds incl. bare pods with ownerReferences, Services, Ingresses, Routes, ANPs) with 1-2 structural mutations '
@@ -120,7 +120,7 @@ PROPS = {
         'assumptions': ['panics inside third-party decoders, stack/heap exhaustion and timeouts are only exercised, not modelled'],
     },
     'C13': {
-        'lean': ['Netpol.Properties.C13'],
+        'lean': ['Netpol.Properties.C13', 'Netpol.Tie.C13'],
         'families': [('baddoc', 700, 30000)],
         'shard_min': 60,
         'rule': 'valid worlds plus 1-3 injected documents of 18 kinds (other kinds, CRD instances, list kinds, documents without kind, truncated / tab-indented / binary / non-YAML text, '
@@ -130,7 +130,7 @@ PROPS = {
         'assumptions': ['bytes -> documents is the third-party scanner: observed, not proved'],
     },
     'C18': {
-        'lean': ['Netpol.Properties.C18'],
+        'lean': ['Netpol.Properties.C18', 'Netpol.Tie.C18'],
         'families': [('fmt', 150, 6000)],
         'shard_min': 40,
         'rule': 'worlds x {5 list formats} x {exposure, focusworkload, --fail} and, for half of them, a second world x {4 diff formats}: the command line run in-process '
